@@ -117,6 +117,28 @@ OTHER_INNER_INV = """                    invariant_except_break
                         if mentions(lts_of(ty), set@) { one_edge(@V@.incoming_edges@, old_edges, param_name@, *ty) } else { @V@.incoming_edges@ == old_edges },"""
 
 
+CF_CONTRACT = """        ensures /*CANARY*/
+            match r {
+                // no nested edges: the field has no lifetimes at all, or none of its use-site lifetimes is a lifetime of the enclosing struct
+                None => path_lts(field).len() == 0 || forall|d: Lifetime, m: Lifetime| !want_field_pair(link_of(field, tcx).pairs@, struc.lifetimes.num_lifetimes as int, link_of(field, tcx).pairs@.len() as int, d, m),
+                // (inner def slot d, outer lifetime m) is recorded iff the field uses the outer lifetime m in slot d
+                Some(info) => info.env == link_of(field, tcx).env && forall|d: Lifetime, m: Lifetime| #![trigger info.borrowed_struct_lifetime_map@.contains((d, m))]
+                    info.borrowed_struct_lifetime_map@.contains((d, m)) == want_field_pair(link_of(field, tcx).pairs@, struc.lifetimes.num_lifetimes as int, link_of(field, tcx).pairs@.len() as int, d, m),
+            },"""
+CF_OUTER_INV = """            invariant
+                link == link_of(field, tcx),
+                ito.seq().len() == struc.lifetimes.num_lifetimes, forall|i: int| 0 <= i < ito.seq().len() ==> ito.seq()[i] == Lifetime(i as usize),
+                forall|d: Lifetime, m: Lifetime| #![trigger borrowed_struct_lifetime_map@.contains((d, m))] #![trigger want_field_pair(link.pairs@, ito.index@ as int, link.pairs@.len() as int, d, m)]
+                    borrowed_struct_lifetime_map@.contains((d, m)) == want_field_pair(link.pairs@, ito.index@ as int, link.pairs@.len() as int, d, m),"""
+CF_OUTER_PREFIX = """            let ghost map0 = borrowed_struct_lifetime_map@;
+            let ghost oi = ito.index@ as int;
+            proof { assert(@O@ == Lifetime(oi as usize)); }"""
+CF_INNER_INV = """                invariant
+                    it.seq() == link.pairs@, @O@ == Lifetime(oi as usize), 0 <= oi < struc.lifetimes.num_lifetimes,
+                    forall|d: Lifetime, m: Lifetime| #![trigger borrowed_struct_lifetime_map@.contains((d, m))]
+                        borrowed_struct_lifetime_map@.contains((d, m)) == (map0.contains((d, m)) || (m == @O@ && want_field_pair(link.pairs@, oi + 1, it.index@ as int, d, m))),"""
+
+
 def build(tier):
     vf = VerusFile(NAME)
     src = Src(F)
@@ -163,19 +185,40 @@ def build(tier):
     p.sub("E12", r"<P: TyPosition<StructPath = StructPath>>", "", count=1, why="TyPosition marker erased (StructPath is the only instantiation)")
     p.sub("E12", r"ty: &hir::Type<P>", "ty: &hir::Type", count=1, why="TyPosition marker erased")
     p.sub("E3", r"BTreeMap::<Lifetime, BTreeSet<Lifetime>>::new\(\)", "PairMap::new()", count=1, why="BTreeMap<K, BTreeSet<V>> carried as the set of (key, member) pairs")
-    p.sub("E3", rf"(\w+)\s*\.entry\((\w+)\)\s*\.or_default\(\)\s*\.insert\(\*(\w+)\);", r"\1.add_pair(\2, *\3);", count=1, why="entry(k).or_default().insert(v) == add the pair (k, v)")
+    p.sub("E3", r"(\w+)\s*\.entry\(([^()]+)\)\s*\.or_default\(\)\s*\.insert\(([^();]+)\);", r"\1.add_pair(\2, \3);", count=1, why="entry(k).or_default().insert(v) == add the pair (k, v)")
     p.sub("E6", r"param_name\.into\(\)", "__name(param_name)", count="+", why="&str -> String conversion with its spec (same characters)")
     p.sub("E14", r"&hir::Type::Slice\(\.\.\)", "hir::Type::Slice(..)", count=None, why="`&PAT` against a reference scrutinee == `PAT` under default binding modes (Verus rejects ref patterns)")
     p.fn("E5", rule_panics, why="unreachable! arm becomes an obligation")
     p.contract(CONTRACT.replace("/*CANARY*/", CANARY), ret_name="r")
     vf.add_piece(p, expected="visit_param")
     vf.add("}\n")
+    # ---- StructBorrowInfo::compute_for_struct_field
+    vf.add("impl<'tcx> StructBorrowInfo<'tcx> {\n")
+    it = src.item("impl StructBorrowInfo<'tcx>::compute_for_struct_field", "fn")
+    p = Piece(src, it)
+    p.expect_loops(2)
+    L = it["loops"]
+    ex = [src.slice(*l["expr"]).strip() for l in L]
+    if not (ex[0] == "struc.lifetimes.all_lifetimes()" and ex[1] == "link.lifetimes_def_only()"):
+        raise Undecided("anchor-lost", f"compute_for_struct_field: loop headers changed: {ex}")
+    o = src.slice(*L[0]["pat"]).strip()
+    p.loop_spec(0, CF_OUTER_INV, iter_name="ito")
+    p.loop_body_prefix(0, CF_OUTER_PREFIX.replace("@O@", o))
+    p.loop_spec(1, CF_INNER_INV.replace("@O@", o), iter_name="it")
+    p.sub("E12", r"<P: TyPosition>", "", count=1, why="TyPosition marker erased")
+    p.sub("E12", r"struc: &StructDef<P>", "struc: &StructDef", count=1, why="TyPosition marker erased")
+    p.sub("E12", r"field: &P::StructPath", "field: &StructPath", count=1, why="associated type written out (StructPath in every instantiation under contract)")
+    p.sub("E3", r"BTreeMap::<Lifetime, BTreeSet<Lifetime>>::new\(\)", "PairMap::new()", count=1, why="BTreeMap<K, BTreeSet<V>> carried as the set of (key, member) pairs")
+    p.sub("E3", r"(\w+)\s*\.entry\(([^()]+)\)\s*\.or_default\(\)\s*\.insert\(([^();]+)\);", r"\1.add_pair(\2, \3);", count=1, why="entry(k).or_default().insert(v) == add the pair (k, v)")
+    p.contract(CF_CONTRACT.replace("/*CANARY*/", CANARY), ret_name="r")
+    vf.add_piece(p, expected="compute_for_struct_field")
+    vf.add("}\n")
     vf.add(vhelp.FOOTER)
     vf.expected += ["lemma_want_inner_step", "lemma_want_pairs_step"]
     return vf
 
 
-CANARY_FUNCTIONS = ["visit_param"]
+CANARY_FUNCTIONS = ["visit_param", "compute_for_struct_field"]
 ASSUMPTIONS = [
     "E3: std BTreeMap<Lifetime, BorrowedLifetimeInfo> carried as the vector of its entries in key order (EntryMap); BTreeSet as an abstract set with contains()/is_empty(); BTreeMap<Lifetime, BTreeSet<Lifetime>> as the set of its (key, member) pairs",
     "E7: `for (k, v) in &mut map` / `for v in map.values_mut()` desugared to an index loop borrowing `&mut entries[i]` (same elements, same order, same mutable access)",
